@@ -351,6 +351,22 @@ func (s *bsys) intResult(i int, call *Term, res int) {
 			}
 		}
 		return
+	case "strconv.ParseUint", "strconv.ParseInt":
+		// godoc: "the result is a value of the type with bitSize bits" (on a range error the nearest representable value)
+		if res == 0 && len(call.A) == 3 {
+			if b, ok := constInt64(call.A[2]); ok && b >= 1 && b <= 62 {
+				if call.Callee() == "strconv.ParseUint" {
+					s.lower(i, 0)
+					s.upper(i, int64(1)<<uint(b)-1)
+				} else {
+					s.lower(i, -(int64(1) << uint(b-1)))
+					s.upper(i, int64(1)<<uint(b-1)-1)
+				}
+			} else if call.Callee() == "strconv.ParseUint" {
+				s.lower(i, 0)
+			}
+		}
+		return
 	case "(*math/big.Int).Int64":
 		// crypto/rand.Int godoc: "returns a uniform random value in [0, max)"
 		if len(call.A) == 1 && call.A[0].K == KExt && call.A[0].S == "0" && call.A[0].A[0].Callee() == "crypto/rand.Int" {
@@ -488,6 +504,21 @@ func (s *bsys) applyArith() {
 	}
 }
 
+// bytesLike: a string or a slice of bytes.
+func bytesLike(t types.Type) bool {
+	if t == nil {
+		return false
+	}
+	switch u := t.Underlying().(type) {
+	case *types.Basic:
+		return u.Info()&types.IsString != 0
+	case *types.Slice:
+		b, ok := u.Elem().Underlying().(*types.Basic)
+		return ok && b.Kind() == types.Uint8
+	}
+	return false
+}
+
 // lenRules adds what is known about len(x).
 func (s *bsys) lenRules(i int, x *Term, isCap bool) {
 	if n, ok := arrayLen(x.Typ); ok {
@@ -537,8 +568,8 @@ func (s *bsys) lenRules(i int, x *Term, isCap bool) {
 			s.lenDiff = append(s.lenDiff, [3]int{i, hn, ln})
 		}
 	case KConv:
-		// string <-> []byte conversion keeps the length
-		if len(x.A) == 1 {
+		// string <-> []byte conversion keeps the length (string <-> []rune does not: one rune is 1..4 bytes)
+		if len(x.A) == 1 && bytesLike(x.Typ) && bytesLike(x.A[0].Typ) {
 			s.eq(i, s.node(lenTerm(x.A[0])), 0)
 		}
 	case KCall:
